@@ -37,6 +37,10 @@ static std::atomic<std::uint64_t> g_value_signals{0}, g_error_signals{0}, g_slow
 static std::atomic<std::int64_t> g_shadow_in_poller{0};    // hook side: queued - callback done
 static std::atomic<std::uint64_t> g_cb_top{0}, g_cb_bottom{0}, g_cb_single{0}, g_queued{0};
 static std::atomic<int> g_in_callback{0};
+static std::atomic<int> g_phase{0};    // 0 submit, 1 pika::wait, 2 straggler loop, 3 stop_polling, 4 finalize/stop, 5 done
+static std::atomic<int> g_round{0};
+static std::string g_sched_name;
+static char const* const phase_name[] = {"submit", "wait", "after-wait", "stop_polling", "shutdown", "done"};
 
 static void hook(std::uint32_t site, void const*, std::uint64_t, std::uint64_t b) noexcept
 {
@@ -79,6 +83,7 @@ int main(int argc, char** argv)
     cfg.scheduler = a.str("scheduler", "local-priority-fifo");
     cfg.threads = (unsigned) a.u64("threads", 4);
     cfg.bind_none = !a.has("bind");
+    g_sched_name = cfg.scheduler;
     unsigned mode = (unsigned) a.u64("cmode", 30);
     bool pool = a.u64("pool", 0) != 0 && cfg.threads >= 2;
     bool shutdown_variant = a.u64("shutdown", 0) != 0;
@@ -110,6 +115,39 @@ int main(int argc, char** argv)
         g_perturb.set(pv::gac_dec, 0.02, 50);
     }
     report.cases = 1;
+    // in-process watchdog: a run that makes no progress for 90 s is reported with the phase it is stuck in and the ledger
+    // (a lost completion shows as pika::wait()/stop() never returning, which a plain time-out would hide)
+    int stuck_s = (int) a.u64("stuck-s", 60);
+    std::thread([mode, stuck_s] {
+        std::uint64_t last = 0;
+        int same = 0;
+        for (;;)
+        {
+            std::this_thread::sleep_for(std::chrono::seconds(1));
+            if (g_phase.load() == 5) return;
+            std::uint64_t cur = g_value_signals.load() + g_error_signals.load() + (std::uint64_t) g_round.load() * 1000003u + (std::uint64_t) g_phase.load();
+            if (cur != last)
+            {
+                last = cur;
+                same = 0;
+                continue;
+            }
+            if (++same < stuck_s) continue;
+            std::uint64_t unsignalled = 0, unfinished = 0;
+            for (auto& m : g_all)
+            {
+                if (m->value_signals.load() + m->error_signals.load() == 0) ++unsignalled;
+                else if (m->finished.load() == 0) ++unfinished;
+            }
+            static char const* const method[] = {"yield_while", "suspend_resume", "new_task", "continuation"};
+            report.violation(sf("C20:stuck:%s:%s:%s", phase_name[g_phase.load()], method[(mode >> 3) & 3], g_sched_name.c_str()),
+                sf("completion mode %u: no progress for %d s in phase '%s' of round %d: %llu operations never signalled, %llu continuations unfinished, requests in poller (hook shadow) %lld, "
+                   "get_work_count()=%zu, callbacks running %d",
+                    mode, stuck_s, phase_name[g_phase.load()], g_round.load(), (unsigned long long) unsignalled, (unsigned long long) unfinished, (long long) g_shadow_in_poller.load(),
+                    mpi::get_work_count(), g_in_callback.load()));
+            bail(0);
+        }
+    }).detach();
     auto errmode = errors_return ? mpi::exception_mode::no_handler : mpi::exception_mode::install_handler;
     rng r(g_seed);
     std::uint64_t ops_started = 0, waits = 0, restarts = 0, err_ops = 0;
@@ -163,6 +201,8 @@ int main(int argc, char** argv)
         static std::size_t const sizes[] = {0, 1, 17, 1024, 16384, 262144};
         for (int round = 0; round < rounds; ++round)
         {
+            g_round = round;
+            g_phase = 0;
             int np = 1 + (int) r.below((std::uint64_t) maxpairs);
             std::vector<std::shared_ptr<op_rec>> mine;
             bool last = (round == rounds - 1);
@@ -206,7 +246,9 @@ int main(int argc, char** argv)
             }
             for (auto& m : mine) g_all.push_back(m);
             if (last && shutdown_variant) break;    // leave them in flight for finalize()/stop()
+            g_phase = 1;
             pika::wait();
+            g_phase = 2;
             ++waits;
             // ledger: nothing started before wait() may still be on its way
             std::size_t work = mpi::get_work_count();
@@ -229,12 +271,15 @@ int main(int argc, char** argv)
             if (cycle && round % cycle == cycle - 1 && !last)
             {
                 pika::wait();
+                g_phase = 3;
                 mpi::stop_polling();
                 if (errors_return) MPI_Comm_set_errhandler(MPI_COMM_WORLD, MPI_ERRORS_RETURN);
                 mpi::start_polling(errmode, pool_name);
+                g_phase = 2;
                 ++restarts;
             }
         }
+        g_phase = 4;
         if (shutdown_variant)
         {
             rt.stop();    // finalize + stop with requests in flight
@@ -253,6 +298,7 @@ int main(int argc, char** argv)
             mpi::stop_polling();
         }
     }
+    g_phase = 5;
     // end-of-run ledger over every operation of the run (late duplicates included)
     std::this_thread::sleep_for(std::chrono::milliseconds(20));
     std::uint64_t dup = 0;
